@@ -1112,6 +1112,12 @@ rrul_fill_yly(echs_instant_t *restrict tgt, size_t nti, rrulsp_t rr)
 					x = echs_instant_attach_scale(x, srcsca);
 
 					tries = 64U;
+					if (UNLIKELY(res >= nti)) {
+						/* a set of hours, minutes and seconds may
+						 * well be bigger than what is left of TGT,
+						 * the next fill resumes within the set */
+						goto fin;
+					}
 					tgt[res + GRP_CCH_OFF] = (echs_instant_t){.y = y};
 					tgt[res++] = x;
 				}
@@ -1284,6 +1290,12 @@ rrul_fill_mly(echs_instant_t *restrict tgt, size_t nti, rrulsp_t rr)
 					x = echs_instant_attach_scale(x, srcsca);
 
 					tries = 64U;
+					if (UNLIKELY(res >= nti)) {
+						/* a set of hours, minutes and seconds may
+						 * well be bigger than what is left of TGT,
+						 * the next fill resumes within the set */
+						goto fin;
+					}
 					tgt[res + GRP_CCH_OFF] = (echs_instant_t){.y = y, .m = m};
 					tgt[res++] = x;
 				}
@@ -1444,6 +1456,12 @@ rrul_fill_wly(echs_instant_t *restrict tgt, size_t nti, rrulsp_t rr)
 				/* attach scale and convert back to greg */
 				x = echs_instant_attach_scale(x, srcsca);
 
+				if (UNLIKELY(res >= nti)) {
+					/* a set of hours, minutes and seconds may
+					 * well be bigger than what is left of TGT,
+					 * the next fill resumes within the set */
+					goto fin;
+				}
 				tgt[res++] = x;
 			}
 		} while ((incs >>= 4U) && res < nti);
@@ -1594,6 +1612,12 @@ rrul_fill_dly(echs_instant_t *restrict tgt, size_t nti, rrulsp_t rr)
 			/* attach scale and convert back to greg */
 			x = echs_instant_attach_scale(x, srcsca);
 
+			if (UNLIKELY(res >= nti)) {
+				/* a set of hours, minutes and seconds may
+				 * well be bigger than what is left of TGT,
+				 * the next fill resumes within the set */
+				goto fin;
+			}
 			tgt[res + GRP_CCH_OFF] = x;
 			tgt[res++] = x;
 		}
@@ -1771,6 +1795,12 @@ rrul_fill_Hly(echs_instant_t *restrict tgt, size_t nti, rrulsp_t rr)
 			if (UNLIKELY(echs_instant_lt_p(x, proto))) {
 				continue;
 			} else if (UNLIKELY(echs_instant_lt_p(rr->until, x))) {
+				goto fin;
+			}
+			if (UNLIKELY(res >= nti)) {
+				/* a set of hours, minutes and seconds may
+				 * well be bigger than what is left of TGT,
+				 * the next fill resumes within the set */
 				goto fin;
 			}
 			tgt[res++] = x;
@@ -1953,6 +1983,12 @@ rrul_fill_Mly(echs_instant_t *restrict tgt, size_t nti, rrulsp_t rr)
 			if (UNLIKELY(echs_instant_lt_p(x, proto))) {
 				continue;
 			} else if (UNLIKELY(echs_instant_lt_p(rr->until, x))) {
+				goto fin;
+			}
+			if (UNLIKELY(res >= nti)) {
+				/* a set of hours, minutes and seconds may
+				 * well be bigger than what is left of TGT,
+				 * the next fill resumes within the set */
 				goto fin;
 			}
 			tgt[res++] = x;
